@@ -393,6 +393,10 @@ structure Cfg where
   hasRollup : Bool                  -- HAS_PROC_SMAPS_ROLLUP of the imported module
   goneGuard : Bool                  -- _raise_if_pid_reused also raises NoSuchProcess when `self._gone` is set
   childrenPopSelf : Bool            -- children() drops the caller's own pid from the ppid map
+  probeLenient : Bool               -- is_running(): a probe whose create time is unknown (AccessDenied swallowed by _init) while
+                                    -- the object's own is known answers True instead of being compared (repair C03-denied-probe)
+  asDictSkipCatch : List String     -- psutil.Process.as_dict: classes of the 2nd handler (NotImplementedError)
+  asDictSkipRule : String           -- … and its body: "if attrs: raise; continue"
   deriving DecidableEq, Repr
 
 section
@@ -781,8 +785,10 @@ def isRunning (o : Obj) : M (Bool × Bool) := do
   | none => pure (false, false)                       -- NoSuchProcess: _gone = True
   | some none => pure (true, false)                   -- ZombieProcess clause
   | some (some o') =>
+    -- (repaired source only) `if self._ident[1] is not None and other._ident[1] is None: return True`
+    if cfg.probeLenient && o.ct.isSome && o'.ct.isNone then pure (true, false)
     -- `self != Process(self.pid)`: _ident = (pid, create time at construction)
-    if o.ct != o'.ct then pure (false, true)          -- raise NoSuchProcess → caught → False
+    else if o.ct != o'.ct then pure (false, true)     -- raise NoSuchProcess → caught → False
     else pure (true, false)
 
 /-- `_raise_if_pid_reused` on a fresh object -/
@@ -894,7 +900,8 @@ def oneshotEnter (p : Nat) : M Bool := do
 def oneshotExit (entered : Bool) : M Unit :=
   if entered then modifyCache (fun _ => {}) else pure ()
 
-/-- the `for name in ls` loop of as_dict: (keys so far, names that got ad_value) -/
+/-- the `for name in ls` loop of as_dict: (keys so far, names that got ad_value); `explicit` = the truth value of
+    `attrs` in the 2nd handler's `if attrs: raise` (False for `as_dict()` AND for `as_dict(attrs=[])`) -/
 def asDictLoop (o : Obj) (explicit : Bool) : List String → Nat → List String → M (Nat × List String)
   | [], n, ad => pure (n, ad)
   | nm :: rest, n, ad =>
@@ -904,8 +911,11 @@ def asDictLoop (o : Obj) (explicit : Bool) : List String → Nat → List String
       let r ← tryCatch (do let _ ← g; pure (some true))
                 (fun e =>
                   if catches cfg.asDictCatch e then some (pure (some false))
-                  else if catches ["NotImplementedError"] e then
-                    (if explicit then some (throw e) else some (pure none))
+                  else if catches cfg.asDictSkipCatch e then
+                    (if cfg.asDictSkipRule == "if attrs: raise; continue" then
+                       (if explicit then some (throw e) else some (pure none))
+                     else if cfg.asDictSkipRule == "continue" then some (pure none)
+                     else some (throw e))
                   else none)
       match r with
       | none => asDictLoop o explicit rest n ad
@@ -913,14 +923,22 @@ def asDictLoop (o : Obj) (explicit : Bool) : List String → Nat → List String
       | some false => asDictLoop o explicit rest (n + 1) (ad ++ [nm])
 
 /-- as_dict(attrs): `with self.oneshot(): …` (the `finally` of the context manager runs on errors too) -/
-def asDict (o : Obj) (attrs : List String) : M (Nat × List String) := do
+def asDictOf (o : Obj) (explicit : Bool) (attrs : List String) : M (Nat × List String) := do
   let entered ← oneshotEnter o.pid
-  let r ← tryCatch (do let v ← asDictLoop cfg o true attrs 0 []; pure (Except.ok v))
+  let r ← tryCatch (do let v ← asDictLoop cfg o explicit attrs 0 []; pure (Except.ok v))
             (fun e => some (pure (Except.error e)))
   oneshotExit entered
   match r with
   | .ok v => pure v
   | .error e => throw e
+
+/-- as_dict(attrs) with a non-empty `attrs` -/
+def asDict (o : Obj) (attrs : List String) : M (Nat × List String) := asDictOf cfg o true attrs
+
+/-- as_dict() / as_dict(attrs=None) / as_dict(attrs=[]): `ls = attrs or valid_names` = every name of
+    `_as_dict_attrnames` (passed in by the caller in the iteration order of that set), and the
+    NotImplementedError clause skips the name instead of re-raising -/
+def asDictAll (o : Obj) (allNames : List String) : M (Nat × List String) := asDictOf cfg o false allNames
 
 /-- children(recursive=False): the loop over ppid_map().items() -/
 def childrenLoop (o : Obj) : List (Nat × Nat) → M (List Nat)
